@@ -1,4 +1,5 @@
 import ButlerModel.Model.Registry
+import ButlerModel.Gen.SummaryPy
 /-! # C02 — collections hold what the history says, one dataset per type + data ID -/
 namespace C02
 open Registry
@@ -466,3 +467,177 @@ theorem inv_run (ops : List Op) : ∀ (s : St), Inv s → Inv (run s ops) := by
 theorem inv_history (ops : List Op) : Inv (run {} ops) := inv_run ops {} inv_init
 
 end C02
+
+/-! ### Collection summaries as generated from the source on every run (`Gen/SummaryPy.lean`, `translate/gen_summary.py`) -/
+namespace C02.Translated
+open Summ Gen.SummaryPy
+
+theorem vals_addVal (g : Gov) (k v k' : Nat) (x : Nat) :
+    x ∈ vals (addVal g k v) k' ↔ (x ∈ vals g k' ∨ (k' = k ∧ x = v)) := by
+  induction g with
+  | nil =>
+    simp only [addVal, vals, List.find?]
+    by_cases h : k = k'
+    · subst h; simp
+    · have : (k == k') = false := by simpa using h
+      simp [this]; intro h1; exact absurd h1.symm h
+  | cons e r ih =>
+    obtain ⟨ke, vs⟩ := e
+    simp only [addVal]
+    by_cases hk : ke = k
+    · subst hk
+      simp only [beq_self_eq_true, if_true]
+      by_cases hk' : ke = k'
+      · subst hk'
+        simp only [vals, List.find?, beq_self_eq_true]
+        by_cases hc : vs.contains v = true
+        · simp only [hc, if_true]
+          constructor
+          · exact Or.inl
+          · rintro (h | ⟨_, rfl⟩)
+            · exact h
+            · simpa using hc
+        · simp only [hc, Bool.false_eq_true, if_false, List.mem_cons]
+          constructor
+          · rintro (h | h)
+            · exact Or.inr ⟨trivial, h⟩
+            · exact Or.inl h
+          · rintro (h | ⟨_, h⟩)
+            · exact Or.inr h
+            · exact Or.inl h
+      · have hb : (ke == k') = false := by simpa using hk'
+        simp only [vals, List.find?, hb]
+        constructor
+        · exact Or.inl
+        · rintro (h | ⟨h, _⟩)
+          · exact h
+          · exact absurd h.symm hk'
+    · have hb : (ke == k) = false := by simpa using hk
+      simp only [hb, Bool.false_eq_true, if_false]
+      by_cases hk' : ke = k'
+      · subst hk'
+        simp only [vals, List.find?, beq_self_eq_true]
+        constructor
+        · exact Or.inl
+        · rintro (h | ⟨h, _⟩)
+          · exact h
+          · exact absurd h hk
+      · have hb' : (ke == k') = false := by simpa using hk'
+        have : vals ((ke, vs) :: addVal r k v) k' = vals (addVal r k v) k' := by simp [vals, List.find?, hb']
+        have h2 : vals ((ke, vs) :: r) k' = vals r k' := by simp [vals, List.find?, hb']
+        rw [this, h2]; exact ih
+
+theorem keys_addVal (g : Gov) (k v k' : Nat) : k' ∈ keys (addVal g k v) ↔ (k' ∈ keys g ∨ k' = k) := by
+  induction g with
+  | nil => simp [addVal, keys]
+  | cons e r ih =>
+    obtain ⟨ke, vs⟩ := e
+    simp only [addVal]
+    by_cases hk : ke = k
+    · subst hk
+      simp only [beq_self_eq_true, if_true, keys, List.map_cons, List.mem_cons]
+      constructor
+      · rintro (h | h)
+        · exact Or.inl (Or.inl h)
+        · exact Or.inl (Or.inr h)
+      · rintro ((h | h) | h)
+        · exact Or.inl h
+        · exact Or.inr h
+        · exact Or.inl h
+    · have hb : (ke == k) = false := by simpa using hk
+      simp only [hb, Bool.false_eq_true, if_false, keys, List.map_cons, List.mem_cons]
+      have ih' : k' ∈ List.map (fun x => x.fst) (addVal r k v) ↔ (k' ∈ List.map (fun x => x.fst) r ∨ k' = k) := ih
+      rw [ih']
+      constructor
+      · rintro (h | h | h)
+        · exact Or.inl (Or.inl h)
+        · exact Or.inl (Or.inr h)
+        · exact Or.inr h
+      · rintro ((h | h) | h)
+        · exact Or.inl h
+        · exact Or.inr (Or.inl h)
+        · exact Or.inr (Or.inr h)
+
+/-- adding the governor values of one data ID -/
+def addOne (g : Gov) (d : List (Nat × Nat)) : Gov := (govsOf d).foldl (fun g gov => addVal g gov (valOf d gov)) g
+
+theorem addOne_mono_aux (d : List (Nat × Nat)) : ∀ (gs : List Nat) (g : Gov) (k x : Nat),
+    x ∈ vals g k → x ∈ vals (gs.foldl (fun g gov => addVal g gov (valOf d gov)) g) k := by
+  intro gs
+  induction gs with
+  | nil => intro g k x h; exact h
+  | cons a r ih =>
+    intro g k x h
+    simp only [List.foldl_cons]
+    exact ih _ k x ((vals_addVal g a _ k x).mpr (Or.inl h))
+
+theorem addOne_has_aux (d : List (Nat × Nat)) : ∀ (gs : List Nat) (g : Gov) (k : Nat), k ∈ gs →
+    valOf d k ∈ vals (gs.foldl (fun g gov => addVal g gov (valOf d gov)) g) k := by
+  intro gs
+  induction gs with
+  | nil => intro g k h; cases h
+  | cons a r ih =>
+    intro g k h
+    simp only [List.foldl_cons]
+    rcases List.mem_cons.mp h with rfl | h'
+    · exact addOne_mono_aux d r _ k _ ((vals_addVal g k _ k _).mpr (Or.inr ⟨rfl, rfl⟩))
+    · exact ih _ k h'
+
+theorem fold_mono : ∀ (D : List (List (Nat × Nat))) (g : Gov) (k x : Nat), x ∈ vals g k → x ∈ vals (D.foldl addOne g) k := by
+  intro D
+  induction D with
+  | nil => intro g k x h; exact h
+  | cons d r ih => intro g k x h; simp only [List.foldl_cons]; exact ih _ k x (addOne_mono_aux d _ g k x h)
+
+theorem fold_has : ∀ (D : List (List (Nat × Nat))) (g : Gov) (d : List (Nat × Nat)) (k : Nat), d ∈ D → k ∈ govsOf d →
+    valOf d k ∈ vals (D.foldl addOne g) k := by
+  intro D
+  induction D with
+  | nil => intro g d k h; cases h
+  | cons e r ih =>
+    intro g d k h hk
+    simp only [List.foldl_cons]
+    rcases List.mem_cons.mp h with rfl | h'
+    · exact fold_mono r _ k _ (addOne_has_aux d _ g k hk)
+    · exact ih _ d k h' hk
+
+theorem addDataIds_eq (ts : List Nat) (g : Gov) (t : Nat) (D : List (List (Nat × Nat))) :
+    addDataIds ts g t D = (addType ts t, D.foldl addOne g) := rfl
+
+/-- **A summary never hides a dataset**: after the data IDs `D` of datasets of type `t` have been added to a summary (whatever it
+held before), `is_compatible_with` answers `True` for every constraint that some dataset of `D` satisfies — so a collection holding
+a matching dataset is never pruned from a query.  (`typeDims`: the dataset type's dimensions, whose governors every data ID of the
+type has.) -/
+theorem summary_never_hides (ts : List Nat) (g : Gov) (t : Nat) (D : List (List (Nat × Nat))) (typeDims : List Nat) (dims : Gov)
+    (d : List (Nat × Nat)) (hd : d ∈ D)
+    (hgov : ∀ k, k ∈ typeDims → k ∈ keys (addDataIds ts g t D).2 → k ∈ keys dims → k ∈ govsOf d)
+    (hsat : ∀ k, k ∈ govsOf d → k ∈ keys dims → valOf d k ∈ vals dims k) :
+    isCompatibleWith (addDataIds ts g t D).1 (addDataIds ts g t D).2 t typeDims dims = true := by
+  rw [addDataIds_eq] at hgov ⊢
+  simp only [isCompatibleWith]
+  have ht : (addType ts t).contains t = true := by
+    unfold addType
+    by_cases h : ts.contains t = true
+    · rw [if_pos h]; exact h
+    · rw [if_neg h]; simp
+  simp only [ht, Bool.not_true, Bool.false_eq_true, if_false, List.all_eq_true, List.mem_filter, Bool.and_eq_true,
+    List.contains_eq_mem, decide_eq_true_eq, Bool.not_eq_true']
+  rintro k ⟨hk1, hk2, hk3⟩
+  have hkd : k ∈ govsOf d := hgov k hk2 hk1 hk3
+  have h1 : valOf d k ∈ vals (D.foldl addOne g) k := fold_has D g d k hd hkd
+  have h2 : valOf d k ∈ vals dims k := hsat k hkd hk3
+  -- not disjoint: the value is on both sides
+  cases hdis : disjoint (vals (D.foldl addOne g) k) (vals dims k) with
+  | false => rfl
+  | true =>
+    simp only [disjoint, List.all_eq_true, Bool.not_eq_true', List.contains_eq_mem, decide_eq_false_iff_not] at hdis
+    exact absurd h2 (hdis _ h1)
+
+/-- non-vacuity: two datasets of type 7 with instrument (governor 1) values 10 and 11: a query for instrument 11 keeps the
+collection, a query for instrument 12 may drop it -/
+example :
+    let s := addDataIds [] [] 7 [[(1, 10)], [(1, 11)]]
+    isCompatibleWith s.1 s.2 7 [1, 2] [(1, [11])] = true ∧ isCompatibleWith s.1 s.2 7 [1, 2] [(1, [12])] = false ∧
+    isCompatibleWith s.1 s.2 8 [1, 2] [] = false := by decide
+
+end C02.Translated
